@@ -203,8 +203,9 @@ impl TaskQueue {
             Entry::Vacant(_) => {}
             Entry::Occupied(mut e) => match e.get_mut() {
                 OneOrMoreTaskIds::One(v) => {
-                    assert_eq!(*v, task_id);
-                    e.remove();
+                    if *v == task_id {
+                        e.remove();
+                    }
                 }
                 OneOrMoreTaskIds::More(tasks) => {
                     tasks.remove(&task_id);
